@@ -11,6 +11,7 @@ import (
 	"encoding/hex"
 	"fmt"
 	"math/big"
+	"sort"
 	"strings"
 	"testing"
 	"time"
@@ -809,6 +810,77 @@ func TestDriverBytes(t *testing.T) {
 		cp.Block.MaxGas = -1
 		require.NoError(t, c.App.BaseApp.StoreConsensusParams(c.Ctx(), cp))
 		w.finalize(nil, "empty block, max_gas=-1")
+	}
+
+	// ---- 5b. liveness after adversarial-but-valid EVM transactions aimed at module accounts: zero-value call (touches an
+	//          empty account), ERC-20 precompile transfer, value transfer, selfdestruct beneficiary; every following
+	//          FinalizeBlock / BeginBlock / EndBlock / Commit must keep succeeding
+	if !w.halted {
+		names := make([]string, 0)
+		addrs := map[string]common.Address{}
+		for bech := range c.App.ModuleAccountAddrs() {
+			a, err := sdk.AccAddressFromBech32(bech)
+			require.NoError(t, err)
+			names = append(names, bech)
+			addrs[bech] = common.BytesToAddress(a.Bytes())
+		}
+		sort.Strings(names)
+		for i, nm := range names {
+			if w.halted {
+				break
+			}
+			target := addrs[nm]
+			modName := nm
+			if acc := c.App.AccountKeeper.GetAccount(c.QueryCtx(), target.Bytes()); acc != nil {
+				if ma, ok := acc.(sdk.ModuleAccountI); ok {
+					modName = ma.GetName()
+				}
+			}
+			sd := c.NewFundedAccount(20000+i, big.NewInt(1))
+			c.SetCode(sd.GetEthAddress(), append(append([]byte{0x73}, target.Bytes()...), 0xff))
+			transfer := append(append(mustHex("a9059cbb"), common.LeftPadBytes(target.Bytes(), 32)...), common.LeftPadBytes([]byte{1}, 32)...)
+			kinds := "zero-value-call,erc20-transfer,value-transfer,selfdestruct-beneficiary"
+			batch := [][]byte{
+				w.validEthBytes(target, nil, 100000),
+				w.validEthBytes(w.erc20, transfer, 300000),
+				c.EthCallTx(w.fresh(), target, nil, 100000, big.NewInt(1)),
+				w.validEthBytes(sd.GetEthAddress(), nil, 200000),
+			}
+			desc := map[string]interface{}{"module_account": modName, "address": target.Hex(), "txs": kinds}
+			base := c.BaseFee(c.QueryCtx())
+			fmp := c.App.FeeMarketKeeper.GetParams(c.QueryCtx())
+			res := w.finalize(batch, desc)
+			survived := res != nil
+			var used uint64
+			flags := []string{}
+			classes := ""
+			if res != nil {
+				for _, x := range res {
+					used += uint64(x.GasUsed)
+					hasEth := false
+					for _, ev := range x.Events {
+						if ev.Type == evmtypes.EventTypeEthereumTx {
+							hasEth = true
+						}
+					}
+					flags = append(flags, CqBool(hasEth))
+					classes += fmt.Sprint(classOf(x.Code, x.Codespace))
+				}
+			}
+			// liveness probes: two more blocks (the first runs the BeginBlockers over whatever the transactions left behind)
+			for k := 0; k < 2 && survived; k++ {
+				if w.finalize(nil, desc) == nil {
+					survived = false
+				}
+			}
+			if !survived {
+				side.Hit("C20/bytes/finalizeblock-failed-after/module-account:"+modName, "block production stopped after valid EVM transactions aimed at module account "+modName+" ("+kinds+")", desc)
+			}
+			cases.Add(fmt.Sprintf("(TEnd %s %s %s (-1) %s %s)", CqList(flags), CqZ(base), CqZu(used), CqZ(fmp.MinGasPrice.BigInt()), CqBool(survived)))
+			side.Count(fmt.Sprintf("module_account:%s:classes=%s:survived=%v", modName, classes, survived))
+			side.Case(idx, "module-account:"+modName, true, desc)
+			idx++
+		}
 	}
 
 	// ---- 6. isolation of a failing transaction (twin chains)
